@@ -1133,6 +1133,12 @@ class Interp:
         text = line if isinstance(line, str) else line[:100].decode("latin-1")
         self.session_gone(sess, ms, r, text)
         self.check_prompt(sess, r, text)
+        if r.status == "BAD" and "Unhandled exception" in (r.text or "") and self.prog.get("mode") == "concurrent" and "C10" in self.props and self.prog.get("family") != "random":
+            # (not in the long random workloads: there CREATE/DELETE/RENAME of several sessions race each other, which is
+            # open finding F90)
+            # C10: the server's catch-all for an exception that escaped a command is the response of no sequential order
+            self.C("c10_no_internal_error")
+            self.V("C10", "unhandled_exception_response", session=sess.sid, cmd=text[:60], reply=(r.text or "")[:120])
         if self.compare and r.status == "NO" and "pending expunge" in (r.text or "").lower():
             # a command by message number is refused "because EXPUNGEs are pending" only when some are: here the
             # session's view IS the message list (every cell known on both sides), so nothing can be pending
@@ -2727,7 +2733,8 @@ class NamespaceOps:
         self.ctx.nontrivial = True
         if ex is not None and ex.noselect:
             ex.noselect = False
-            ex.msgs = []
+            # (what an MH agent delivered into the folder while it was a placeholder is mail of the new mailbox)
+            ex.msgs = [m for m in ex.msgs if m.born is not None and m.uid is None]
             ex.uvv = ex.uvv  # keeps the value assigned when it was deleted
         parts = name.split("/")
         for j in range(1, len(parts) + 1):
@@ -2787,6 +2794,15 @@ class NamespaceOps:
                 m2.selected = None
                 m2.lost_mailbox = True
         if kids:
+            if self.compare:
+                # C13: when the DELETE has completed the folder's .mh_sequences mentions none of the removed messages
+                # (the next message an MH agent stores there gets number 1 - and would get their flags)
+                self.C("c13_stale_key")
+                seqs_ = self.read_mh_sequences(box)
+                live_ = set(self.live_keys(box))
+                stale_ = {n: sorted(set(v) - live_) for n, v in seqs_.items() if n != "__error__" and set(v) - live_}
+                if stale_:
+                    self.V("C13", "mh_sequences_stale_key", mailbox=box.name, stale=stale_, live=sorted(live_), why="after DELETE into \\Noselect")
             box.noselect = True
             box.msgs = []
             box.uvv_history.append(box.uvv)
